@@ -126,7 +126,7 @@ Proof.
   destruct I.
   destruct (n_crea n) eqn:CR.
   - destruct (dp_add (n_id n) (dp s) (dpnext s)) as [[sw d1] nx1]. inversion H; subst s' o; clear H.
-    constructor; cbn [store live pend tick applied released used]; auto.
+    constructor; cbn [store live pend tick applied released used completed]; auto.
     + intros k r. rewrite aget_aput. eqb_case k (n_id n); [intros H; inversion H; auto | auto].
     + intros i Hi. right. auto.
     + intros k r Hk. right. eauto.
@@ -135,7 +135,7 @@ Proof.
     + intros i Hi. destruct (i_gone0 i Hi) as (A & B & C). repeat split; auto.
       rewrite aget_aput_neq; auto. intro; subst. apply NU. auto.
   - inversion H; subst s' o; clear H.
-    constructor; cbn [store live pend tick applied released used]; auto.
+    constructor; cbn [store live pend tick applied released used completed]; auto.
     + intros k r. rewrite aget_aput. eqb_case k (n_id n); [intros H; inversion H; auto | auto].
     + intros i Hi. right. auto.
     + intros k r Hk. right. eauto.
@@ -221,7 +221,7 @@ Proof.
   - assert (NR : ~ In (s_id r) (released s)).
     { intros Hi. destruct (i_gone0 _ Hi) as (_ & _ & a & C & D).
       unfold effective in EF. rewrite O, C in EF. specialize (D _ _ P eq_refl). lia. }
-    constructor; cbn [store live pend tick applied released used]; auto.
+    constructor; cbn [store live pend tick applied released used completed]; auto.
     + intros k r0. rewrite aget_aput. eqb_case k (s_id r); [intros H; inversion H; auto | auto].
     + intros t' r' H. eauto.
     + intros j a. rewrite aget_aput. eqb_case j (s_id r); [intros H; inversion H; subst; eauto|eauto].
@@ -230,7 +230,7 @@ Proof.
     + intros j Hj. destruct (i_gone0 j Hj) as (A & B & a & C & D).
       assert (j <> s_id r) by (intro; subst; auto).
       rewrite !aget_aput_neq; auto; repeat split; auto; exists a; split; auto; intros; eauto.
-  - constructor; cbn [store live pend tick applied released used]; auto.
+  - constructor; cbn [store live pend tick applied released used completed]; auto.
     + intros t' r' H. eauto.
     + intros t' r' H. eauto.
     + intros j Hj. destruct (i_gone0 j Hj) as (A & B & a & C & D). repeat split; auto.
@@ -256,12 +256,12 @@ Lemma cksf_tail_inv1 s1 i r :
   inv1 s1 -> aget i (live s1) = Some r ->
   inv1 {| store := store s1; pend := pend s1; tick := tick s1 + 1; applied := applied s1;
           live := aput i (set_stamp r (tick s1)) (live s1); leases := leases s1; dp := dp s1; dpnext := dpnext s1;
-          released := released s1; used := used s1; poison := poison s1 |}.
+          released := released s1; used := used s1; poison := poison s1; completed := completed s1 |}.
 Proof.
   intros I L. destruct I.
   assert (NR : ~ In i (released s1)).
   { intros Hi. destruct (i_gone0 i Hi) as (_ & B & _). congruence. }
-  constructor; cbn [store live pend tick applied released used]; auto.
+  constructor; cbn [store live pend tick applied released used completed]; auto.
   - intros k r0. rewrite aget_aput. eqb_case k i; [intros H; inversion H; cbn; eauto | auto].
   - intros t r0 H. apply i_pend_tick0 in H. lia.
   - intros j a H. apply i_appl_tick0 in H. lia.
@@ -312,9 +312,9 @@ Lemma inv1_replay s k r' ls d nx :
   inv1 s -> s_id r' = k -> In k (used s) -> ~ In k (released s) ->
   inv1 {| store := store s; pend := pend s ++ [(tick s, r')]; tick := tick s + 1; applied := applied s;
           live := aput k r' (live s); leases := ls; dp := d; dpnext := nx;
-          released := released s; used := used s; poison := poison s |}.
+          released := released s; used := used s; poison := poison s; completed := completed s |}.
 Proof.
-  intros [] ID U NR. constructor; cbn [store live pend tick applied released used]; auto.
+  intros [] ID U NR. constructor; cbn [store live pend tick applied released used completed]; auto.
   - intros k0 r0. rewrite aget_aput. eqb_case k0 k; [intros H; inversion H; subst; auto|auto].
   - intros t r0 H. apply aget_snoc in H. destruct H as [H|[H _]]; [apply i_pend_tick0 in H|]; lia.
   - intros j a H. apply i_appl_tick0 in H. lia.
@@ -370,7 +370,7 @@ Proof.
   intros I. unfold do_crash.
   set (s0 := {| store := store s; pend := []; tick := tick s; applied := applied s; live := [];
                 leases := []; dp := if p then dp s else []; dpnext := if p then dpnext s else swif_base;
-                released := released s; used := used s; poison := [] |}).
+                released := released s; used := used s; poison := []; completed := completed s |}).
   assert (I0 : inv1 s0).
   { destruct I. constructor; cbn [s0 store live pend tick applied released used]; auto;
       try (intros; discriminate).
@@ -390,10 +390,34 @@ Proof.
   apply do_done_core_inv1; auto. unfold flush. apply flush_inv1; auto.
 Qed.
 
-Lemma step_inv1 c s o s' out :
-  c_ordered c = true -> inv1 s -> step c s o = Some (s', out) -> inv1 s'.
+Definition relf_pre (c : cfg) (s : st) (i : N) : st :=
+  if c_ordered c then match first_of c s i (pend s) with Some t0 => fst (do_done_core c s t0 false) | None => s end else s.
+
+Lemma relf_pre_live c s i : live (relf_pre c s i) = live s.
+Proof. unfold relf_pre. destruct (c_ordered c); auto. destruct (first_of c s i (pend s)); auto. apply do_done_core_live. Qed.
+
+Lemma do_relf_eq c s i r :
+  c_delretry c = true -> aget i (live s) = Some r -> fst (do_relf c s i) = fst (do_rel (relf_pre c s i) i).
 Proof.
-  intros O I H. destruct o; cbn [step] in H.
+  intros D L. unfold do_relf. rewrite L, D. fold (relf_pre c s i). unfold do_rel. rewrite !relf_pre_live, L. cbn [fst]. reflexivity.
+Qed.
+
+Lemma relf_pre_inv1 c s i : c_ordered c = true -> inv1 s -> inv1 (relf_pre c s i).
+Proof.
+  intros O I. unfold relf_pre. rewrite O. destruct (first_of c s i (pend s)); auto. apply do_done_core_inv1; auto.
+Qed.
+
+Lemma do_relf_inv1 c s i : c_ordered c = true -> c_delretry c = true -> inv1 s -> inv1 (fst (do_relf c s i)).
+Proof.
+  intros O D I. destruct (aget i (live s)) as [r|] eqn:L.
+  - rewrite (do_relf_eq c s i r D L). apply do_rel_inv1. apply relf_pre_inv1; auto.
+  - unfold do_relf. rewrite L. auto.
+Qed.
+
+Lemma step_inv1 c s o s' out :
+  c_ordered c = true -> c_delretry c = true -> inv1 s -> step c s o = Some (s', out) -> inv1 s'.
+Proof.
+  intros O DR I H. destruct o; cbn [step] in H.
   - eapply do_new_inv1; eauto.
   - inversion H. change s' with (fst (s', out)). rewrite <- H1. apply do_ck_inv1; auto.
   - inversion H. change s' with (fst (s', out)). rewrite <- H1. apply do_cks_inv1; auto.
@@ -401,6 +425,7 @@ Proof.
   - inversion H. change s' with (fst (s', out)). rewrite <- H1. apply do_done_inv1; auto.
   - inversion H. change s' with (fst (s', out)). rewrite <- H1. apply do_poison_inv1; auto.
   - inversion H. change s' with (fst (s', out)). rewrite <- H1. apply do_cksf_inv1; auto.
+  - inversion H. change s' with (fst (s', out)). rewrite <- H1. apply do_relf_inv1; auto.
   - inversion H. change s' with (fst (s', out)). rewrite <- H1. apply do_crash_inv1; auto.
 Qed.
 
@@ -423,13 +448,13 @@ Qed.
 
 (* T1 *)
 Lemma released_stay_gone c ops s :
-  c_ordered c = true -> run c init ops = Some s ->
+  c_ordered c = true -> c_delretry c = true -> run c init ops = Some s ->
   (forall i, In i (released s) -> aget i (live s) = None /\ aget i (store s) = None) /\
   (forall p f now i, In i (released s) ->
      let s' := fst (do_crash c s p f now) in
      In i (released s') /\ aget i (live s') = None /\ aget i (store s') = None).
 Proof.
-  intros O R.
+  intros O DR R.
   assert (I : inv1 s).
   { eapply (run_inv inv1 c); eauto using inv1_init. intros. eapply step_inv1; eauto. }
   split.
@@ -442,10 +467,10 @@ Proof.
               (store s) (isort (map fst (store s)))
               {| store := store s; pend := []; tick := tick s; applied := applied s; live := [];
                  leases := []; dp := if p then dp s else []; dpnext := if p then dpnext s else swif_base;
-                 released := released s; used := used s; poison := [] |} []) as (_ & _ & GR).
+                 released := released s; used := used s; poison := []; completed := completed s |} []) as (_ & _ & GR).
       - intros k r G. destruct I. cbn [used released]. repeat split; eauto.
         intros Hk. destruct (i_gone0 k Hk) as (A & _). congruence.
-      - destruct I. constructor; cbn [store live pend tick applied released used]; auto;
+      - destruct I. constructor; cbn [store live pend tick applied released used completed]; auto;
           try (intros; discriminate).
         intros j Hj. destruct (i_gone0 j Hj) as (A & B & a & C & D). repeat split; auto.
         exists a. split; auto. intros; discriminate.
@@ -557,7 +582,7 @@ Lemma restore_replay_self c f cause dp0 s lg k r :
                tick := tick (install c s k r) + 1; applied := applied (install c s k r);
                live := aput k (set_prog r sw) (live (install c s k r)); leases := leases (install c s k r);
                dp := dp_prog k r d1; dpnext := nx1; released := released (install c s k r);
-               used := used (install c s k r); poison := poison (install c s k r) |} in
+               used := used (install c s k r); poison := poison (install c s k r); completed := completed (install c s k r) |} in
   restoredQ c f cause dp0 k r s' (lg ++ prog_log c k sw r ++ [TR k cause]) /\ dpinv dp0 k s'.
 Proof.
   intros RP FL DI sw d1 nx1 DA s'.
@@ -891,7 +916,7 @@ Proof.
   assert (REST : forall (r : sess) d nx, addrs r = addrs r0 ->
             inv2 c {| store := store s; pend := pend s; tick := tick s; applied := applied s;
                       live := aput (n_id n) r (live s); leases := l3; dp := d; dpnext := nx;
-                      released := released s; used := n_id n :: used s; poison := poison s |}).
+                      released := released s; used := n_id n :: used s; poison := poison s; completed := completed s |}).
   { intros r d nx EA. destruct I1, I2. constructor; cbn [store live pend leases applied].
     - intros k r1 ad. rewrite aget_aput. eqb_case k (n_id n).
       + intros H1. inversion H1; subst. apply OWN; auto.
@@ -1135,11 +1160,23 @@ Proof.
   apply do_done_core_inv2; auto.
 Qed.
 
+Lemma do_relf_inv2 c s i :
+  c_ordered c = true -> c_delretry c = true -> inv1 s -> inv2 c s -> inv2 c (fst (do_relf c s i)).
+Proof.
+  intros O D I1 I2. destruct (aget i (live s)) as [r|] eqn:L.
+  - rewrite (do_relf_eq c s i r D L).
+    assert (J1 : inv1 (relf_pre c s i)) by (apply relf_pre_inv1; auto).
+    assert (J2 : inv2 c (relf_pre c s i)).
+    { unfold relf_pre. rewrite O. destruct (first_of c s i (pend s)); auto. apply do_done_core_inv2; auto. }
+    apply do_rel_inv2; auto.
+  - unfold do_relf. rewrite L. auto.
+Qed.
+
 Lemma step_inv12 c s o s' out :
-  c_ordered c = true -> reserves c -> pools_small c ->
+  c_ordered c = true -> c_delretry c = true -> reserves c -> pools_small c ->
   inv1 s /\ inv2 c s -> step c s o = Some (s', out) -> inv1 s' /\ inv2 c s'.
 Proof.
-  intros O RS PS (I1 & I2) H. split; [eapply step_inv1; eauto|].
+  intros O DR RS PS (I1 & I2) H. split; [eapply step_inv1; eauto|].
   destruct o; cbn [step] in H.
   - eapply do_new_inv2; eauto.
   - inversion H. change s' with (fst (s', out)). rewrite <- H1. apply do_ck_inv2; auto.
@@ -1148,12 +1185,13 @@ Proof.
   - inversion H. change s' with (fst (s', out)). rewrite <- H1. apply do_done_inv2; auto.
   - inversion H. change s' with (fst (s', out)). rewrite <- H1. apply do_poison_inv2; auto.
   - inversion H. change s' with (fst (s', out)). rewrite <- H1. apply do_cksf_inv2; auto.
+  - inversion H. change s' with (fst (s', out)). rewrite <- H1. apply do_relf_inv2; auto.
   - inversion H. change s' with (fst (s', out)). rewrite <- H1. apply do_crash_inv2; auto.
 Qed.
 
 (* T3 in full *)
 Lemma reserved_before_alloc c ops s :
-  c_ordered c = true -> reserves c -> pools_small c -> run c init ops = Some s ->
+  c_ordered c = true -> c_delretry c = true -> reserves c -> pools_small c -> run c init ops = Some s ->
   (forall k r ad, aget k (live s) = Some r -> In ad (addrs r) -> inpool c ad = true ->
                   aget ad (leases s) = Some k) /\
   (forall fam a, fam < 3 -> alloc_ok c (leases s) fam (Some a) = true ->
@@ -1161,7 +1199,7 @@ Lemma reserved_before_alloc c ops s :
   (forall k k' r r' ad, aget k (live s) = Some r -> aget k' (live s) = Some r' ->
                  In ad (addrs r) -> In ad (addrs r') -> inpool c ad = true -> k = k').
 Proof.
-  intros O RS PS R.
+  intros O DR RS PS R.
   assert (I : inv1 s /\ inv2 c s).
   { eapply (run_inv (fun s => inv1 s /\ inv2 c s) c); eauto.
     - intros. eapply step_inv12; eauto.
